@@ -59,6 +59,8 @@ def fingerprint(node: t.Any, mode: str = "exact"):
     if not isinstance(node, Expr):
         return _val(node, mode, False)
     cls = type(node).__name__
+    if not type(node).__module__.startswith("sqlglot."):
+        cls = f"{type(node).__module__}.{cls}"   # a class defined outside the library is not its namesake in sqlglot.expressions
     if mode == "eq":
         raw = bool(getattr(node, "_hash_raw_args", False))
         items = []
